@@ -551,6 +551,23 @@ class Headers(typing.Mapping[str, str]):
 class MutableHeaders(Headers, typing.MutableMapping[str, str]):
     __slots__ = Headers.__slots__
 
+    def __init__(
+        self,
+        headers: typing.Optional[
+            typing.Union[
+                typing.Mapping[str, str],
+                typing.Iterable[typing.Tuple[str, str]],
+            ]
+        ] = None,
+    ) -> None:
+        super().__init__(headers)
+        # the same rule as for later mutations (__setitem__)
+        for key, value in self._dict.items():
+            if "\n" in key or "\r" in key or "\0" in key:
+                raise ValueError("Header names must not contain control characters.")
+            if "\n" in value or "\r" in value or "\0" in value:
+                raise ValueError("Header values must not contain control characters.")
+
     def __setitem__(self, key: str, value: str) -> None:
         if "\n" in key or "\r" in key or "\0" in key:
             raise ValueError("Header names must not contain control characters.")
